@@ -52,6 +52,18 @@ def mk_engine(fb, inline_depth=6, no_inline=None, **kw):
     return psi.Engine(fb, inline_depth=inline_depth, summaries=SUMMARIES, inline_filter=flt, **kw)
 
 
+def run_unrolled(fb, body, unroll=8, **kw):
+    """paths of `body` with loops unrolled up to `unroll` times (a loop over a small constant table is then fully explored);
+    when that explodes (an unbounded retry loop somewhere below), fall back to cutting every loop at its back edge.
+    Returns (engine, paths)."""
+    eng = mk_engine(fb, loop_unroll=unroll, **kw)
+    try:
+        return eng, eng.run(body)
+    except psi.PathLimit:
+        eng = mk_engine(fb, loop_unroll=0, **kw)
+        return eng, eng.run(body)
+
+
 def clock_read_id(v):
     """if v is the Ok payload (or the raw result) of a call to a clock-reading wrapper,
     return (clock id constant or None, call term)"""
